@@ -2,6 +2,7 @@ package simrt
 
 import (
 	"fmt"
+	"reflect"
 	"runtime/debug"
 	"sync"
 	"unsafe"
@@ -118,6 +119,7 @@ func RunTasks(fns []func(), budget []int64, choose Chooser) RunResult {
 	}
 	wgCount = map[*sync.WaitGroup]int{}
 	PrevSyncObj, NextUntilObj, NextSyncQuantum = nil, nil, 0
+	unbufSends, closedChans = map[unsafe.Pointer][]*pendSend{}, map[unsafe.Pointer]bool{}
 	schedActive, Acc, accActive = true, true, true
 	last, lastSite := 0, uint32(0)
 	for {
@@ -316,6 +318,105 @@ func WGWait(wg *sync.WaitGroup) {
 	}
 	SyncAcquire(unsafe.Pointer(wg))
 	syncPoint(unsafe.Pointer(wg))
+}
+
+// ---- channels ----
+//
+// Receive, send and close are modelled (select and range-over-channel are not: C04 then
+// exits 2). A task never blocks its goroutine inside a real channel operation: buffered
+// and closed channels are polled, an unbuffered send is parked in a table until a receiver
+// takes it. Outside the scheduler a blocked operation lets the queued goroutines run; if
+// none is left the pattern needs two goroutines alive at once, which the single-goroutine
+// mode cannot provide: Unsupported is set and the harness ends the run with exit 2.
+
+// Unsupported, when non-empty, says why the run cannot give a verdict.
+var Unsupported string
+
+type pendSend struct {
+	v     any
+	taken bool
+}
+
+var unbufSends = map[unsafe.Pointer][]*pendSend{}
+var closedChans = map[unsafe.Pointer]bool{}
+
+func chanWait(what string) {
+	if schedActive && curTask != nil {
+		blockYield()
+		return
+	}
+	if len(pendingGo) > 0 {
+		fn := pendingGo[0]
+		pendingGo = pendingGo[1:]
+		fn()
+		return
+	}
+	Unsupported = "a channel " + what + " blocks while no other goroutine is left to run in single-goroutine mode"
+	panic(ErrDeadlock)
+}
+
+func Recv[T any](ch <-chan T) T {
+	v, _ := Recv2(ch)
+	return v
+}
+
+func Recv2[T any](ch <-chan T) (T, bool) {
+	if ch == nil {
+		chanWait("receive from a nil channel")
+	}
+	id := unsafe.Pointer(reflect.ValueOf(ch).Pointer())
+	for {
+		select {
+		case v, ok := <-ch:
+			SyncAcquire(id)
+			syncPoint(id)
+			return v, ok
+		default:
+		}
+		if q := unbufSends[id]; len(q) > 0 {
+			p := q[0]
+			unbufSends[id] = q[1:]
+			p.taken = true
+			SyncAcquire(id)
+			syncPoint(id)
+			return p.v.(T), true
+		}
+		chanWait("receive")
+	}
+}
+
+func Send[T any](ch chan<- T, v T) {
+	id := unsafe.Pointer(reflect.ValueOf(ch).Pointer())
+	if closedChans[id] {
+		panic("send on closed channel")
+	}
+	SyncRelease(id)
+	if cap(ch) > 0 {
+		for {
+			select {
+			case ch <- v:
+				syncPoint(id)
+				return
+			default:
+			}
+			chanWait("send")
+		}
+	}
+	p := &pendSend{v: v}
+	unbufSends[id] = append(unbufSends[id], p)
+	for !p.taken {
+		chanWait("send")
+	}
+	syncPoint(id)
+}
+
+func Close[C any](ch C) {
+	rv := reflect.ValueOf(ch)
+	id := unsafe.Pointer(rv.Pointer())
+	SyncRelease(id)
+	closedChans[id] = true
+	rv.Close()
+	syncPoint(id)
 }
 
 // ---- happens-before edges of modelled synchronisation ----
